@@ -75,6 +75,7 @@ class base():
         self.calc_flux()
         self.calc_res()
         if self.model.source: 
+            self.model.initdisc(self.mesh) # mesh dependent data of the model (nozzle section terms) are those of this discretization
             self.add_source()
         return self.residual
 
